@@ -5,7 +5,8 @@ SPEC = {
               part("c11_memstream", "asan", ["c11_memstream.cpp"], env={"ASAN_OPTIONS": "detect_leaks=0"}),
               part("c11_damage", "asan", ["c11_damage.cpp"], env={"ASAN_OPTIONS": "detect_leaks=0:allocator_may_return_null=1:max_allocation_size_mb=2048"}, timeout={"quick": 1500, "thorough": 7200})],
     "rule": "crash consistency: the file operations (fopen/write/writev/fclose/rename/remove) of a 9-step run with 4 periodic "
-            "state writes + the final one are recorded by libc interposition, text and binary; EVERY prefix of the operation "
+            "state writes + the final one are recorded by libc interposition, text and binary, and the same for the state file one bias saves on "
+            "request every second step (write_state_prefix); EVERY prefix of the operation "
             "log and every (quick: every 5th) byte prefix of every write is materialised and both candidates (state file, "
             ".old) are loaded in a fresh module; second level: restart from the survivor in the same directory and crash "
             "again at every operation boundary / 3 byte prefixes of the next state write; damaged states: valid text and binary states of 12 configurations after 5 steps x every truncation offset (quick: "
